@@ -456,6 +456,8 @@ func runC16(c *Ctx) {
 	checkWatchedAddressSetOnlyGrows(c, "C16-R6")
 	checkAddrTypeFollowsBranch(c, "C16-R4")
 	checkRecoveryStartsAtCurrentBirthdayBlock(c, "C16-R6")
+	checkAddressLookupsNormalisePayToPubKey(c, "C16-R2")
+	checkRecoveryFailureFailsSync(c, "C16-R6")
 	checkWatchListCoversEveryRequestComponent(c, "C16-R1")
 	checkNeutrinoRecoveryWaitsForBackend(c, "C16-R6")
 	checkBirthdayMargin(c, "C16-R6")
@@ -899,4 +901,41 @@ func (p *Program) slicerFirstParam(v ssa.Value) (*ssa.Parameter, bool) {
 		}
 	}
 	return nil, false
+}
+
+// checkRecoveryFailureFailsSync: an interrupted recovery (backend error, wallet locked, shutdown) is resumed by the next
+// synchronisation attempt from the last committed batch — provided the attempt it interrupted FAILS. If the startup path
+// carries on after a failed recovery it submits the final rescan (which knows only the addresses found so far and has no
+// look-ahead) and the wallet ends up marked synced to the tip: every later recovery starts above the unscanned blocks and
+// what they pay is never found. Rule: after the call to the recovery, nothing but an error return is reachable unless the
+// edge on which its error is nil was taken.
+func checkRecoveryFailureFailsSync(c *Ctx, rule string) {
+	p := c.P
+	syn := p.Func("wallet", "Wallet", "syncWithChain")
+	if syn == nil {
+		c.Unresolved(rule, "wallet.Wallet.syncWithChain")
+		return
+	}
+	n := 0
+	for _, f := range p.regionOf(syn) {
+		for _, call := range callsNamed(f, "recovery") {
+			if call.Call.Signature().Results().Len() != 1 {
+				continue
+			}
+			n++
+			q := &PathQuery{Fn: f, Target: p.nonErrorReturn()}
+			q.EdgeBarrier = func(from *ssa.BasicBlock, si int) bool {
+				ef := edgeFactOf(from, si)
+				return ef != nil && ef.Kind == "nil" && loadIsResultOf(ef.V, call)
+			}
+			hits := q.From(call)
+			pos := call.Pos()
+			if len(hits) > 0 {
+				pos = hits[0].Ins.Pos()
+			}
+			c.Check(rule, "recovery-failure-fails-sync:"+fnName(f), pos, len(hits) == 0,
+				fnName(f)+" can carry on and report success after the recovery returned an error: the final rescan and the synced-to stamps move past blocks the recovery never scanned with its look-ahead, and the resumed recovery starts above them")
+		}
+	}
+	c.Floor(rule, "recovery calls on the startup path", n, 1)
 }
